@@ -262,6 +262,12 @@ func collideLetters(w *drv.World) []string {
 		}
 		ls = append(ls, "P:4/1/u,5/0/u")
 	}
+	if w.M.Next+3 <= maxMsgs {
+		// one batch X Y X: a key, the first occurrence of another key (colliding / not colliding), the
+		// first key again - inside one segment and one in-memory index append, also right after a
+		// message of X (a batch-level cache in the key tree goes wrong exactly here)
+		ls = append(ls, "P:4/1/u,5/0/u,4/0/u", "P:4/1/u,6/0/u,4/0/u")
+	}
 	ls = append(ls, singleDeletes(w)...)
 	ls = append(ls, "R:", "RX:all", "G:0", "L")
 	return ls
@@ -310,12 +316,14 @@ func delLeaves(w *drv.World) []string {
 		ls = append(ls, "DD:"+drv.JoinInts(s))
 	}
 	ls = append(ls, "D:-1", "D:-2", "D:-2,3", "D:-3", "D:-1,0")
-	live := liveOffsets(w)
-	for m := 1; m < 1<<len(live); m++ {
+	// the multi-pass drivers over every non-empty subset of [0,Next+1]: live offsets, offsets that
+	// were deleted before and offsets not assigned yet in one request (what is reported must be
+	// exactly what the passes removed; a set of live offsets must go completely)
+	for m := 1; m < 1<<n; m++ {
 		var s []int64
-		for i := range live {
+		for i := 0; i < n; i++ {
 			if m&(1<<i) != 0 {
-				s = append(s, live[i])
+				s = append(s, int64(i))
 			}
 		}
 		ls = append(ls, "DM:"+drv.JoinInts(s), "DMO:"+drv.JoinInts(s))
@@ -393,6 +401,11 @@ func versionLetters(w *drv.World) []string {
 		}
 	}
 	ls = append(ls, "Mi:1", "Mi:2", "Mi:11", "Mi:22", "L")
+	if w.M.Next+3 <= maxMsgs && countKind(w, "P") < 2 {
+		// one segment whose times dip and come back part of the way (t0 > t2 > t1): the index timestamp
+		// is a running maximum, which every path that derives an index has to carry the same way
+		ls = append(ls, "P:0/1/u,1/-3/u,0/1/u")
+	}
 	return ls
 }
 
